@@ -65,6 +65,10 @@ func (g *FuncGen) execCall(x *ssa.Call, st *State) error {
 						}
 					}
 				}
+				// the call's own arguments (receiver first): $arg0, $arg1, ...
+				for i, a := range com.Args {
+					env.vars[fmt.Sprintf("$arg%d", i)] = Val{g.valOrAddr(a, st), a.Type()}
+				}
 				t, err := g.evalBool(ac.Clause.Expr, env)
 				if err != nil {
 					return fmt.Errorf("%s: at-call %s: %v", g.fname, ac.Callee, err)
@@ -111,7 +115,7 @@ func (g *FuncGen) execCall(x *ssa.Call, st *State) error {
 		}
 	}
 	if c == nil && callee != nil && !g.eng.isKnownPure(com) && g.canInline(callee) {
-		if rs, ok := g.inlineCall(callee, args, st); ok {
+		if rs, ok := g.inlineCall(callee, args, com.Args, st); ok {
 			g.inlined[shortKey(callee.String())] = true
 			if nres == 1 {
 				g.define(x, rs[0])
@@ -129,7 +133,72 @@ func (g *FuncGen) execCall(x *ssa.Call, st *State) error {
 			name = "invoke " + com.Method.FullName()
 		}
 		pure := g.eng.isKnownPure(com)
-		if !pure {
+		var af *AssumeFrame
+		if !pure && g.rootC != nil {
+			for i := range g.rootC.AssumeFrames {
+				a := &g.rootC.AssumeFrames[i]
+				if (a.Callee == "$dynamic" && callee == nil && !com.IsInvoke()) || (callee != nil && strings.HasSuffix(shortKey(callee.String()), a.Callee)) {
+					af = a
+				}
+			}
+		}
+		if af != nil {
+			// assumed frame (listed): only these maps, and there only the footprint objects
+			mods, err := g.resolveModNames(af.Modifies, g.pkg)
+			if err != nil {
+				return fmt.Errorf("%s: assume-frame %s: %v", g.fname, af.Callee, err)
+			}
+			g.assumptions["assumed frame of the call to "+name+" in "+g.fname+": "+af.Src] = true
+			g.abstract("call without contract: " + name + " (assumed frame)")
+			if !g.modifiesAll {
+				for _, m := range mods {
+					if !g.ownMod[m] && m != "$alloc" {
+						g.oblige("frame.call", "assumed:"+m, st.reach, "false", "assumed frame of "+name+" includes "+m+", which is outside the caller's modifies set", pos)
+					}
+				}
+			}
+			env := g.entryEnv()
+			env.heap = st.heap
+			var items []Val
+			for _, fe := range af.Footprint {
+				v, err := g.eval(fe, env)
+				if err != nil {
+					return fmt.Errorf("%s: assume-frame %s: footprint %s: %v", g.fname, af.Callee, fe, err)
+				}
+				items = append(items, v)
+			}
+			preHeap := st.heap
+			if mods == nil {
+				mods = []string{} // nothing but allocation
+			}
+			hv := g.heapHavoc(st.heap, mods)
+			hv.noFrame = true
+			st.heap = hv
+			nrF := g.newReach(st.reach)
+			g.assert(fmt.Sprintf("(=> %s (>= %s %s))", nrF, g.allocTerm(st.heap), g.allocTerm(preHeap)))
+			if len(items) > 0 {
+				for _, m := range mods {
+					srt := g.eng.sortOfMap(g, m)
+					if srt == "" || !(strings.HasPrefix(m, "F:") || strings.HasPrefix(m, "C:") || strings.HasPrefix(m, "G:")) {
+						continue
+					}
+					var fps []string
+					for _, it := range items {
+						if footprintApplies(it.Type, m) {
+							fps = append(fps, g.inFootprint(it, "r", preHeap))
+						}
+					}
+					in := "false"
+					if len(fps) == 1 {
+						in = fps[0]
+					} else if len(fps) > 1 {
+						in = "(or " + strings.Join(fps, " ") + ")"
+					}
+					g.assert(fmt.Sprintf("(=> %s (forall ((r Int)) (! (=> (and (not %s) (< r %s)) (= (select %s r) (select %s r))) :pattern ((select %s r)))))", nrF, in, g.allocTerm(preHeap), g.heapGet(st.heap, m, srt), g.heapGet(preHeap, m, srt), g.heapGet(st.heap, m, srt)))
+				}
+			}
+			st.reach = nrF
+		} else if !pure {
 			g.abstract("call without contract: " + name + " (heap havocked)")
 			g.frameCallAll(st, name, pos)
 			st.heap = g.heapHavoc(st.heap, nil)
@@ -242,6 +311,29 @@ func (g *FuncGen) execCall(x *ssa.Call, st *State) error {
 				continue
 			}
 			srt := g.eng.sortOfMap(g, m)
+			if srt != "" && strings.HasPrefix(m, "E:") {
+				// element arrays: when the footprint names slices of this element type, only
+				// their backing arrays (and arrays allocated by the callee) may change
+				var arrs []string
+				for _, it := range items {
+					if it.Type == nil {
+						continue
+					}
+					if sl, ok := it.Type.Underlying().(*types.Slice); ok && g.elemMap(sl.Elem()).Name == m {
+						arrs = append(arrs, fmt.Sprintf("(= r (s_arr %s))", it.Term))
+					}
+				}
+				if len(arrs) > 0 {
+					in := arrs[0]
+					if len(arrs) > 1 {
+						in = "(or " + strings.Join(arrs, " ") + ")"
+					}
+					after := g.heapGet(st.heap, m, srt)
+					before := g.heapGet(preHeap, m, srt)
+					g.assert(fmt.Sprintf("(=> %s (forall ((r Int)) (! (=> (and (not %s) (< r %s)) (= (select %s r) (select %s r))) :pattern ((select %s r)))))", nr, in, g.allocTerm(preHeap), after, before, after))
+				}
+				continue
+			}
 			if srt == "" || !(strings.HasPrefix(m, "F:") || strings.HasPrefix(m, "C:") || strings.HasPrefix(m, "G:")) {
 				continue
 			}
@@ -278,6 +370,22 @@ func (g *FuncGen) execCall(x *ssa.Call, st *State) error {
 		}
 		if (cl.Label == "bytes" && g.w.useStrings) || (cl.Label == "strings" && !g.w.useStrings) {
 			continue // clause written for the other string model
+		}
+		if g.rootC != nil && g.rootC.Use != nil {
+			skip := false
+			for suf, labels := range g.rootC.Use {
+				if strings.HasSuffix(shortKey(c.Key), suf) {
+					skip = true
+					for _, l := range labels {
+						if l == cl.Label {
+							skip = false
+						}
+					}
+				}
+			}
+			if skip {
+				continue
+			}
 		}
 		t, err := g.evalBool(cl.Expr, post)
 		if err != nil {
@@ -386,7 +494,7 @@ func (g *FuncGen) canInline(callee *ssa.Function) bool {
 	return n <= 300
 }
 
-func (g *FuncGen) inlineCall(callee *ssa.Function, args []string, st *State) (results []string, ok bool) {
+func (g *FuncGen) inlineCall(callee *ssa.Function, args []string, argVals []ssa.Value, st *State) (results []string, ok bool) {
 	g.inlineSeq++
 	child := &FuncGen{Core: g.Core, fn: callee, depth: g.depth + 1, prefix: fmt.Sprintf("i%d.", g.inlineSeq)}
 	if callee.Pkg != nil {
@@ -401,6 +509,12 @@ func (g *FuncGen) inlineCall(callee *ssa.Function, args []string, st *State) (re
 	}
 	for i, p := range callee.Params {
 		child.vals[p] = args[i]
+		// an interior pointer (&x.f, &s[i]) keeps denoting that place inside the helper
+		if i < len(argVals) {
+			if a, isAddr := g.addrs[argVals[i]]; isAddr && a != nil {
+				child.addrs[p] = a
+			}
+		}
 	}
 	nObl, nAss := len(g.obls), len(g.asserts)
 	failed := false
@@ -529,6 +643,26 @@ func footprintApplies(t types.Type, m string) bool {
 		return m[2:] == name
 	}
 	return true
+}
+
+// elemFootprintGoal: when the contract's footprint names slices with element map
+// emName, a write into array arr of that map must hit one of their backing arrays
+// (entry values) or an array allocated during the call. "" when the footprint does
+// not restrict this element map.
+func (g *FuncGen) elemFootprintGoal(arr, emName string) string {
+	var parts []string
+	for _, f := range g.ownFootprint {
+		if f.Type == nil {
+			continue
+		}
+		if sl, ok := f.Type.Underlying().(*types.Slice); ok && g.elemMap(sl.Elem()).Name == emName {
+			parts = append(parts, fmt.Sprintf("(= %s (s_arr %s))", arr, f.Term))
+		}
+	}
+	if len(parts) == 0 {
+		return ""
+	}
+	return fmt.Sprintf("(or (>= %s %s) %s)", arr, g.alloc0, strings.Join(parts, " "))
 }
 
 func shortKey(k string) string {
@@ -671,6 +805,11 @@ func (g *FuncGen) execAppend(x *ssa.Call, st *State) error {
 	// frame: in-place write to a pre-existing array
 	if g.rootC != nil && !g.modifiesAll && !g.ownMod[em.Name] && !g.fresh[fmt.Sprintf("(s_arr %s)", s)] {
 		g.oblige("frame.store", "", st.reach, fmt.Sprintf("(=> (and %s (> %s 0)) (>= (s_arr %s) %s))", inPlace, n, s, g.alloc0), "append writes in place into spare capacity of a slice outside the modifies set ("+em.Name+")", pos)
+	}
+	if g.rootC != nil && !g.modifiesAll && g.ownMod[em.Name] && !g.fresh[fmt.Sprintf("(s_arr %s)", s)] {
+		if goal := g.elemFootprintGoal(fmt.Sprintf("(s_arr %s)", s), em.Name); goal != "" {
+			g.oblige("frame.store", "", st.reach, fmt.Sprintf("(=> (and %s (> %s 0)) %s)", inPlace, n, goal), "append writes in place: the array must belong to a footprint slice or be fresh ("+em.Name+")", pos)
+		}
 	}
 	nv := g.freshConst("H:"+em.Name, em.Sort)
 	srcArr := fmt.Sprintf("(select %s (s_arr %s))", cur, t)
